@@ -651,6 +651,7 @@ class _SetOperation(Selectable, Term):  # type:ignore[misc]
         the alias, otherwise the field will be rendered as SQL.
         """
         clauses = []
+        ctx = ctx.copy(with_alias=False, subcriterion=False)
         selected_aliases = {s.alias for s in self.base_query._selects}
         for field, directionality in self._orderbys:
             term = (
@@ -670,12 +671,12 @@ class _SetOperation(Selectable, Term):  # type:ignore[misc]
     def _offset_sql(self, ctx: SqlContext) -> str:
         if self._offset is None:
             return ""
-        return " OFFSET {offset}".format(offset=self._offset.get_sql(ctx))
+        return " OFFSET {offset}".format(offset=self._offset.get_sql(ctx.copy(with_alias=False)))
 
     def _limit_sql(self, ctx: SqlContext) -> str:
         if self._limit is None:
             return ""
-        return " LIMIT {limit}".format(limit=self._limit.get_sql(ctx))
+        return " LIMIT {limit}".format(limit=self._limit.get_sql(ctx.copy(with_alias=False)))
 
 
 class QueryBuilder(Selectable, Term):  # type:ignore[misc]
@@ -1609,7 +1610,7 @@ class QueryBuilder(Selectable, Term):  # type:ignore[misc]
         SQL for Columns clause for INSERT queries
         """
         # Remove from ctx, never format the column terms with namespaces since only one table can be inserted into
-        ctx = ctx.copy(with_namespace=False)
+        ctx = ctx.copy(with_namespace=False, with_alias=False)
         return " ({columns})".format(columns=",".join(term.get_sql(ctx) for term in self._columns))
 
     def _values_sql(self, ctx: SqlContext) -> str:
@@ -1645,12 +1646,12 @@ class QueryBuilder(Selectable, Term):  # type:ignore[misc]
         )
 
     def _prewhere_sql(self, ctx: SqlContext) -> str:
-        prewhere_sql = ctx.copy(subquery=True)
+        prewhere_sql = ctx.copy(subquery=True, with_alias=False, subcriterion=False)
         prewheres = cast(QueryBuilder, self._prewheres)
         return " PREWHERE {prewhere}".format(prewhere=prewheres.get_sql(prewhere_sql))
 
     def _where_sql(self, ctx: SqlContext) -> str:
-        where_ctx = ctx.copy(subquery=True)
+        where_ctx = ctx.copy(subquery=True, with_alias=False, subcriterion=False)
         wheres = cast(QueryBuilder, self._wheres)
         return " WHERE {where}".format(where=wheres.get_sql(where_ctx))
 
@@ -1668,6 +1669,7 @@ class QueryBuilder(Selectable, Term):  # type:ignore[misc]
         otherwise the entire field will be rendered as SQL.
         """
         clauses = []
+        ctx = ctx.copy(with_alias=False, subcriterion=False)
         selected_aliases = {s.alias for s in self._selects}
         for field in self._groupbys:
             if (alias := field.alias) and alias in selected_aliases:
@@ -1703,6 +1705,7 @@ class QueryBuilder(Selectable, Term):  # type:ignore[misc]
         the alias, otherwise the field will be rendered as SQL.
         """
         clauses = []
+        ctx = ctx.copy(with_alias=False, subcriterion=False)
         selected_aliases = {s.alias for s in self._selects}
         for field, directionality in self._orderbys:
             term = (
@@ -1723,18 +1726,19 @@ class QueryBuilder(Selectable, Term):  # type:ignore[misc]
         return " WITH ROLLUP"
 
     def _having_sql(self, ctx: SqlContext) -> str:
-        having = self._havings.get_sql(ctx)  # type:ignore[union-attr]
+        having_ctx = ctx.copy(subquery=True, with_alias=False, subcriterion=False)
+        having = self._havings.get_sql(having_ctx)  # type:ignore[union-attr]
         return f" HAVING {having}"
 
     def _offset_sql(self, ctx: SqlContext) -> str:
         if self._offset is None:
             return ""
-        return " OFFSET {offset}".format(offset=self._offset.get_sql(ctx))
+        return " OFFSET {offset}".format(offset=self._offset.get_sql(ctx.copy(with_alias=False)))
 
     def _limit_sql(self, ctx: SqlContext) -> str:
         if self._limit is None:
             return ""
-        return " LIMIT {limit}".format(limit=self._limit.get_sql(ctx))
+        return " LIMIT {limit}".format(limit=self._limit.get_sql(ctx.copy(with_alias=False)))
 
     def _set_sql(self, ctx: SqlContext) -> str:
         field_ctx = ctx.copy(with_namespace=False)
@@ -1860,7 +1864,7 @@ class JoinOn(Join):
 
     def get_sql(self, ctx: SqlContext) -> str:
         join_sql = super().get_sql(ctx)
-        criterion_ctx = ctx.copy(subquery=True)
+        criterion_ctx = ctx.copy(subquery=True, with_alias=False, subcriterion=False)
         return "{join} ON {criterion}{collate}".format(
             join=join_sql,
             criterion=self.criterion.get_sql(criterion_ctx),
@@ -1908,7 +1912,7 @@ class JoinUsing(Join):
         join_sql = super().get_sql(ctx)
         return "{join} USING ({fields})".format(
             join=join_sql,
-            fields=",".join(field.get_sql(ctx) for field in self.fields),
+            fields=",".join(field.get_sql(ctx.copy(with_alias=False)) for field in self.fields),
         )
 
     def validate(self, _from: Sequence[Table], _joins: Sequence[Table]) -> None:
